@@ -63,11 +63,27 @@ pub fn run_family(family: &str, prop: &str, tier: u8, seed: u64, total: usize, w
     let exe = std::env::current_exe().expect("current_exe");
     let results: Arc<Mutex<Vec<Option<Rec>>>> = Arc::new(Mutex::new(vec![None; total]));
     let mut handles = Vec::new();
+    // jobs that hang cost a full watchdog period each: after the second one the period shrinks (a job of the quick tier
+    // takes seconds), after twelve the remaining jobs of the family are not started (they stay inconclusive)
+    let timeouts = Arc::new(AtomicU64::new(0));
     for w in 0..nworkers {
-        let (exe, family, prop, results) = (exe.clone(), family.to_string(), prop.to_string(), results.clone());
+        let (exe, family, prop, results, timeouts) = (exe.clone(), family.to_string(), prop.to_string(), results.clone(), timeouts.clone());
         handles.push(std::thread::spawn(move || {
             let mut start = w;
             while start < total {
+                if timeouts.load(Ordering::Relaxed) >= 12 {
+                    let mut r = results.lock().unwrap();
+                    let mut i = start;
+                    while i < total {
+                        if r[i].is_none() {
+                            let mut rec = Rec::new(i);
+                            rec.status = "inconclusive:not-started-after-12-timeouts".into();
+                            r[i] = Some(rec);
+                        }
+                        i += nworkers;
+                    }
+                    break;
+                }
                 // spawn a worker for indices start, start+n, ...
                 let mut child = Command::new(&exe)
                     .args(["worker", &family, &prop, &tier.to_string(), &seed.to_string(), &start.to_string(), &nworkers.to_string(), &total.to_string()])
@@ -112,7 +128,9 @@ pub fn run_family(family: &str, prop: &str, tier: u8, seed: u64, total: usize, w
                         Err(_) => break,
                     }
                     let idle = t0.elapsed().as_millis() as u64 - last_activity.load(Ordering::Relaxed);
-                    if idle > watchdog.as_millis() as u64 {
+                    let limit = if timeouts.load(Ordering::Relaxed) >= 2 { watchdog.as_millis() as u64 / 5 } else { watchdog.as_millis() as u64 };
+                    if idle > limit {
+                        timeouts.fetch_add(1, Ordering::Relaxed);
                         timed_out = true;
                         let _ = child.kill();
                         break;
